@@ -36,7 +36,7 @@ class C20(Prop):
         "NV.C20.tie_seteuid_shape", "NV.C20.tie_seteuid_verdict", "NV.C20.tie_seteuid_null_verdict",
         "NV.C20.tie_giveuid_shape",
         # round 5: inventory of every uid/euid write in the driver; interleaved statement order of the anchor functions
-        "NV.C20.tie_uid_writes_governed", "NV.C20.tie_uid_write_inventory", "NV.C20.tie_uid_rules_all_used",
+        "NV.C20.tie_uid_writes_governed", "NV.C20.tie_uid_write_inventory", "NV.C20.tie_uid_rules_all_used", "NV.C20.tie_uid_records_never_renamed",
         "NV.C20.tie_seteuid_order", "NV.C20.tie_export_order", "NV.C20.tie_set_master_shape", "NV.C20.tie_reload_shape",
         "NV.C20.tie_load_tail_shape", "NV.C20.tie_clone_shape", "NV.C20.tie_init_object_shape", "NV.C20.tie_load_virtual_shape",
     ]
@@ -296,6 +296,31 @@ class C20(Prop):
         mk("cf-drop-noroot-simul", ["cfg noroot simul", "pol cf bb drop+s:Backbone", "pol vs m * i:1", "do m seteuid,s:Backbone",
                                     "do m load,/c20/bb/a", "do se seteuid,s:zed", "do se load,/c20/bb/b", "do m seteuid,s:x9",
                                     "do se via,m,clone,c1,/c20/bb/b"])
+        # ---- round 5: a reloaded master announces ANOTHER root uid (and backbone uid): it gets that uid through add_uid, the uid
+        # record of the first root uid is not renamed - every object created before keeps its uid / euid names
+        mk("master-reload-other-root", ["do m load,/c20/root/a", "do m load,/c20/bb/a", "do roota seteuid,s:Root", "pol vs * * i:1",
+                                        "do m load,/c20/u1/a", "do u1a seteuid,s:Root", "pol root zed", "pol bb u1", "do u1a dest,m",
+                                        "do m load,/c20/root/b", "do m load,/c20/bb/b", "do roota load,/c20/root/c",
+                                        "pol root u1", "do m dest,m", "do m load,/c20/u1/b", "pol root Root", "do roota dest,m",
+                                        "do m clone,c1,/c20/root/a", "pol root Backbone", "do m dest,m", "do m load,/c20/bb/c"])
+        mk("master-reload-other-root-simul", ["cfg simul nobb", "pol root NONAME", "do m load,/c20/root/a", "do m dest,m",
+                                              "do m load,/c20/odd/a", "do m export,se", "pol root x9", "do m dest,m", "do m export,roota"])
+        # ---- round 5: bind() - an efun pointer made by one object is re-bound to another (master valid_bind) and then
+        # creates with the NEW owner as current_object
+        mk("bind", ["do m load,/c20/u1/a", "do m load,/c20/u2/a", "do u1a seteuid,s:u1", "do u2a bind,u1a,load,/c20/u1/b",
+                    "pol vb u2a * i:0", "do u2a bind,u1a,load,/c20/u1/c", "pol vb u2a u1a err", "do u2a bind,u1a,clone,c1,/c20/u1/b",
+                    "pol vb * * i:1", "do u1a bind,u2a,load,/c20/u2/b", "do u1a bind,u1a,clone,c2,/c20/u1/b",
+                    "pol vb u1a u1a i:0", "do u1a bind,u1a,clone,c4,/c20/u1/b", "do u1a bind,zz,load,/c20/u1/c",
+                    "do u1a bind,u2a,seteuid,s:x9", "pol vb u1a m s:yes", "do u1a bind,m,load,/c20/bb/a", "pol vb * * arr",
+                    "do u2a bind,m,clone,c3,/c20/bb/b", "pol vb * * none", "do u2a bind,m,load,/c20/bb/c",
+                    "do zz bind,m,load,/c20/bb/c", "do u2a via,u1a,bind,m,load,/c20/bb/c", "pol vb u1a * i:-2",
+                    "do u2a via,u1a,bind,m,load,/c20/bb/c", "do u2a bind,u1a,load,/c20/u1/nofile"])
+        mk("bind-nested", ["script /c20/u2/a bind,u1a,load,/c20/u2/b;bind,m,clone,c1,/c20/u2/b;load,/c20/u2/c",
+                           "script /c20/u2/b bind,u2a,load,/c20/u2/c", "pol vb u2a m i:0", "do m load,/c20/u1/a", "do u1a seteuid,s:u1",
+                           "do u1a load,/c20/u2/a", "pol co u1 t:/c20/u2/c", "do u2a bind,u1a,load,/c20/u1/v1",
+                           "do u2a bind,u1a,clone,c5,/c20/u1/v1", "pol cf bb drop+s:Backbone", "do u2a bind,m,load,/c20/bb/a"])
+        mk("bind-simul", ["cfg simul noroot", "do se bind,m,load,/c20/u1/a", "do m bind,se,load,/c20/u1/b", "do se seteuid,s:zed",
+                          "do m bind,se,load,/c20/u1/b", "pol vb se * i:0", "do se bind,m,clone,c1,/c20/u1/a"])
         # ---- round 5: other configurations of the mudlib (first line `cfg ...`) ---------------------------------------
         # master without get_bb_uid(): set_master sets no backbone uid, a "Backbone" answer is an ordinary name
         mk("cfg-nobb", ["cfg nobb", "do m load,/c20/bb/a", "do bba seteuid,s:u1", "do bba clone,c1,/c20/bb/b", "pol cf u1 s:Backbone",
@@ -355,7 +380,7 @@ class C20(Prop):
                 elif kind == "export":
                     ops.append("export,%s" % rng.choice(["m", "c1", "c2", "u1a", "u2a", "bba"]))
                 else:
-                    ops.append(rng.choice(["dest,m", "reload,u1a", "reload,u2a", "reload,c1", "reload,bba", "load,/c20/u1/nofile",
+                    ops.append(rng.choice(["dest,m", "reload,u1a", "reload,u2a", "reload,c1", "reload,bba", "load,/c20/zz/nofile",
                                            "seteuid,i:7", "dest,u1a"]))
             lines.append("script %s %s" % (k, ";".join(ops)))
         return lines, chain
@@ -432,8 +457,17 @@ class C20(Prop):
             if virt_dirs and rng.chance(1, 30):
                 lines.append("pol co %s %s" % (rng.choice(virt_dirs), rng.choice(["-", "none", "err", "i:0", "t:" + rng.choice(all_paths)])))
                 continue
+            if rng.chance(1, 40):
+                # the master's get_root_uid() / get_bb_uid() change their answer; then (often) the master is reloaded
+                lines.append("pol %s %s" % (rng.choice(["root", "root", "bb"]), rng.choice([n for n in NAMES if n])))
+                if rng.chance(2, 3):
+                    lines.append("do %s dest,m" % actor())
+                continue
             if rng.chance(1, 6):
-                if rng.chance(1, 2):
+                if rng.chance(1, 5):
+                    lines.append("pol vb %s %s %s" % (rng.choice(sorted(objs) + ["*", "*"]), rng.choice(sorted(objs) + ["*", "*"]),
+                                                     rng.weighted(VS_SPECS)))
+                elif rng.chance(1, 2):
                     lines.append("pol cf %s %s" % (rng.choice(DIRS), rng.choice(CF_SPECS)))
                 else:
                     o = rng.choice(sorted(objs) + ["*", "*"])
@@ -443,8 +477,13 @@ class C20(Prop):
             a = actor()
             caller = actor() if rng.chance(1, 8) else None
 
+            usebind = rng.chance(1, 2) if caller else False
+
             def DO(owner, op):
-                # optionally through a function pointer: <caller> evaluates a function made by <owner>
+                # optionally through a function pointer: <caller> evaluates a function made by <owner>, or (load / clone)
+                # <caller> makes an efun pointer, binds it to <owner> (master valid_bind) and runs it
+                if caller and usebind and op.startswith(("load,", "clone,")):
+                    return "do %s bind,%s,%s" % (caller, owner, op)
                 return "do %s via,%s,%s" % (caller, owner, op) if caller else "do %s %s" % (owner, op)
             k = rng.weighted([("seteuid", 10), ("load", 9), ("clone", 9), ("export", 7), ("dest", 2), ("reload", 2),
                               ("seteuid0", 3), ("seteuidint", 1), ("cferr", 2)])
@@ -502,7 +541,8 @@ class C20(Prop):
              "seteuid_zero": 0, "export_ok": 0, "export_refused": 0, "export_error": 0, "noeuid_load_error": 0,
              "noeuid_clone_error": 0, "compile_object_calls": 0, "virtual_handed_out": 0, "funptr_ops": 0, "funptr_noeuid_refused": 0,
              "master_reloads": 0, "master_reload_refused": 0, "export_onto_self": 0, "nested_ops": 0, "nested_creations": 0, "nested_noeuid_refused": 0, "max_nesting": 0, "backbone_grants": 0, "policy_errors": 0, "nobj": 0, "reloads": 0,
-             "crash": 0, "cfg_nobb": 0, "cfg_noroot": 0, "cfg_simul": 0, "simul_actor_ops": 0, "simul_dest_error": 0, "cf_callback_drops": 0}
+             "crash": 0, "cfg_nobb": 0, "cfg_noroot": 0, "cfg_simul": 0, "simul_actor_ops": 0, "simul_dest_error": 0, "cf_callback_drops": 0,
+             "bind_ops": 0, "bind_asked": 0, "bind_denied": 0, "bind_self": 0}
         for c in cases:
             for f in self.cfg_key(c):
                 h["cfg_" + f] += 1
@@ -527,6 +567,8 @@ class C20(Prop):
                     h["max_nesting"] = max(h["max_nesting"], len(stack) - 1)
                     cur = t[2] if len(t) > 2 else ""
                     pend_cf = None
+                elif t[0] == "vb":
+                    h["bind_asked"] += 1
                 elif t[0] == "co":
                     h["compile_object_calls"] += 1
                 elif t[0] == "cf":
@@ -549,6 +591,10 @@ class C20(Prop):
                     r = " ".join(t[1:])
                     if cur.startswith("via,"):
                         h["funptr_ops"] += 1
+                    if cur.startswith("bind,"):
+                        h["bind_ops"] += 1
+                        if "Permission_of_binding" in r:
+                            h["bind_denied"] += 1
                     if cur == "dest,m":
                         h["master_reloads" if r == "1" else "master_reload_refused"] += 1
                     if len(stack) > 1 and stack[-1] and stack[-1].startswith("via,") and ("no_effective_user" in r or "without_effective_UID" in r):
